@@ -60,7 +60,7 @@ def handle (line : String) : String :=
     match parseHandler hs, parseArgs as with
     | some h, some a =>
       let (b, c, w) := match h with
-        | some h => (bindable h a, collides h a, decide (WF h.sig))
+        | some h => (bindable h a, collides h a, decide (HandlerWF h))
         | none => (false, false, true)
       String.intercalate " " [showVerdict (handlerInvocation h a),
         showVerdict (handlerInvocationPinned h a), bit b, bit c, bit w]
